@@ -2,7 +2,7 @@
 import os
 
 from . import core
-from .rules import stdio, cert, mark, exact, optstore, inval, idx, atomic, own, tokens, idxclass, copy, pair, structfree, buf, div, counter, sentinel, appendinit, verdict, basismap, zerotol, escape, lenclass, djsym, ndet, useb4check, norms, opencheck, shell, esolver, errlost, rescan, certdep, neverset, fmt, defaults, scratch, fullscan, slotleak, floatidx, sensemap, trunc, vtypezero, allockind, intdiv, strscan, localfield, rawidx
+from .rules import stdio, cert, mark, exact, optstore, inval, idx, atomic, own, tokens, idxclass, copy, pair, structfree, buf, div, counter, sentinel, appendinit, verdict, basismap, zerotol, escape, lenclass, djsym, ndet, useb4check, norms, opencheck, shell, esolver, errlost, rescan, certdep, neverset, fmt, defaults, scratch, fullscan, slotleak, floatidx, sensemap, trunc, vtypezero, allockind, intdiv, strscan, localfield, rawidx, argcap, staleptr
 from .effects import Effects
 
 FIX = os.path.join(os.path.dirname(os.path.abspath(__file__)), "fixtures")
@@ -162,11 +162,13 @@ def c01_rules():
         lambda prog, tier: certdep.run(prog, which=("QSexact_optimal_test",)),
         lambda prog, tier: vtypezero.run(prog),
         lambda prog, tier: escape.run_extcopy(prog),
+        lambda prog, tier: argcap.run(prog, floor=40),
     ]
 
 
 def c02_rules():
     return [
+        lambda prog, tier: argcap.run(prog, floor=40),
         lambda prog, tier: cert.run(prog, want=("INF",)),
         lambda prog, tier: mark.run(prog, which=("QSexact_infeasible_test",)),
         lambda prog, tier: optstore.run(prog),
@@ -503,6 +505,7 @@ PROPS = {
                   lambda prog, tier: escape.run(prog),
                   lambda prog, tier: idxclass.run(prog, scope_units=("lib_mpq.c", "qsopt_mpq.c"), rule="R-IDXCLASS"),
                   lambda prog, tier: scratch.run(prog), lambda prog, tier: scratch.run_delay(prog),
+                  lambda prog, tier: staleptr.run(prog, shared_eff(prog)),
                   lambda prog, tier: escape.run_extcopy(prog)],
         "technique": "value-class (zero / non-zero / unknown) fixpoint over GMP-number locations with interprocedural parameter binding and "
                      "dead-write elimination on the CFG; per-iteration must-pass analysis of the scratch-mark clearing loops",
@@ -527,6 +530,8 @@ PROPS = {
                   lambda prog, tier: idxclass.run(prog),
                   lambda prog, tier: lenclass.run(prog),
                   lambda prog, tier: lenclass.run_capacity(prog),
+                  lambda prog, tier: argcap.run(prog, floor=40),
+                  lambda prog, tier: staleptr.run(prog, shared_eff(prog)),
                   lambda prog, tier: neverset.run(prog),
                   lambda prog, tier: fmt.run(prog),
                   lambda prog, tier: floatidx.run(prog),
@@ -635,10 +640,16 @@ PROPS = {
 # ------------------------------------------------------------------ texts of the rules added in session 3
 # (appended to the technique / explanation / level texts above so that MANIFEST and evidence name every deciding method)
 _ADD = {
-    "C01": {"level_text": " Since session 3 the presence, coverage, failing signs and data dependences of the test's own gates are decided too "
+    "C01": {"explanation": " (R-ARGCAP) the solution vectors the driver allocates (through the converting copies' length headers) cover the "
+                           "internal-column space the optimality test subscripts them with.",
+            "technique": "; interprocedural subscript-space requirement of pointer parameters against reaching allocation classes of local vectors",
+            "level_text": " Since session 3 the presence, coverage, failing signs and data dependences of the test's own gates are decided too "
                           "(R-CERTDEP): a dropped or narrowed check, a wrong array or index space, a data-dependent skip are reported. (R-VTYPEZERO) wherever a non-basic status is chosen "
                           "from the variable type, STAT_ZERO is reachable for VFREE only (type-value enumeration through the if forms)."},
-    "C02": {"level_text": " R-CERTDEP decides presence, coverage over all internal columns, failing outcomes (<= 0) and data dependences of the "
+    "C02": {"explanation": " (R-ARGCAP) every local vector handed to the tests (and to every other function) was allocated with a dimension "
+                           "that covers the index spaces the callee subscripts it with.",
+            "technique": "; interprocedural subscript-space requirement of pointer parameters against reaching allocation classes of local vectors",
+            "level_text": " R-CERTDEP decides presence, coverage over all internal columns, failing outcomes (<= 0) and data dependences of the "
                           "Farkas-value and infinite-bound gates."},
     "C05": {"technique": "; per-iteration must-write analysis for the co-update of a row's sense with its logical column",
             "explanation": " (R-COUPD(sense)) every path that stores a new row sense also writes the logical column's lower bound, upper bound and "
@@ -679,10 +690,12 @@ _ADD = {
     "C12": {"explanation": " (R-VTYPEZERO) wherever the simplex chooses a non-basic status from the variable type (initial basis, singular-basis "
                            "repair) STAT_ZERO is reachable for a free variable only, so the basic solution of the returned basis takes every non-basic "
                            "variable at one of its bounds. (R-LOCALFIELD) the verdict functions read no field of a local record that nothing wrote."},
-    "C13": {"technique": "; control-dependence analysis of scratch-mark resets and dependency-counter updates on conditions over exact numbers",
+    "C13": {"technique": "; control-dependence analysis of scratch-mark resets and dependency-counter updates on conditions over exact numbers; "
+                         "re-point summaries of pointer fields (bottom-up) + path-sensitive staleness typestate of their local copies",
             "explanation": " (R-SCRATCH) in the sparse kernels no clearing of a scratch mark (lpinfo::iwork) and no update of a dependency counter "
                            "(ur/uc/lr/lc_info::delay) is control-dependent on the value of an exact number: an exact cancellation must not change the "
-                           "structure the next solve relies on. (R-EXTORDER(copy)) elements of a work vector in internal column order (tableau row, "
+                           "structure the next solve relies on. (R-STALEPTR) no local copy of a re-allocatable array pointer of the factorisation "
+                           "(urcoef, urindx, ucindx, lcindx ...) is used after a call that may grow the array, unless it was fetched again. (R-EXTORDER(copy)) elements of a work vector in internal column order (tableau row, "
                            "solution vectors) reach the caller's arrays only through structmap[] / rowmap[].",
             "level_text": " R-SCRATCH adds the structural clause that marks and topological counters are value-independent (two seeded LU / tableau "
                           "defects are reported by it)."},
@@ -694,7 +707,9 @@ _ADD = {
                            "continuous column)."},
     "C17": {"technique": "; capacity-governed allocation agreement (governed arrays discovered from their allocation sites); read-but-never-written "
                          "field census; printf-format census; floating-point-derived subscript taint; four-array norm typestate at a basis load; "
-                         "index-space typing of subscripts in the raw-to-LP conversion (R-RAWIDX)"},
+                         "index-space typing of subscripts in the raw-to-LP conversion (R-RAWIDX); subscript-space requirement of parameters "
+                         "against the reaching allocation classes of local vectors (R-ARGCAP); staleness typestate of local copies of "
+                         "re-allocatable pointer fields (R-STALEPTR)"},
     "C18": {"technique": "; append-slot typestate with error-code / flag correlation; deep-release check of owning records"},
     "C19": {"technique": "; status-value enumeration through switch / if / conditional-expression forms; printf-format census; resource typestate on "
                          "esolver's main; exit-condition analysis of the print loops",
